@@ -308,4 +308,12 @@ theorem decode_canonical (raw : Bytes) (araw : AllBytes raw) (b : Block) (hd : B
   · rw [if_neg hs] at hds
     injection hds with h1; cases h1
 
+/-- **Decoding is injective on what it accepts**: two byte strings that both decode to the same block are the same byte string. -/
+theorem decode_injective (r1 r2 : Bytes) (a1 : AllBytes r1) (a2 : AllBytes r2) (b : Block)
+    (h1 : Block.decode r1 = .ok (some b)) (h2 : Block.decode r2 = .ok (some b)) : r1 = r2 := by
+  have e1 := (decode_canonical r1 a1 b h1).1
+  have e2 := (decode_canonical r2 a2 b h2).1
+  rw [e1] at e2
+  injection e2
+
 end SecsModel.Props.C16
